@@ -109,6 +109,11 @@ func NewParser(srcPath, dstPath string) (*Parser, error) {
 	if fileSrc == nil && parseErr != nil {
 		return nil, logger.Errorf("%v: %v", srcPath, parseErr)
 	}
+	if fileSrc == nil {
+		// The loader never handed the file over for parsing, e.g. because the package uses cgo
+		// and only the translated copies of its files are compiled.
+		return nil, logger.Errorf("%v: the file is not among the parsed files of its package (a setup file that imports \"C\" is not supported)", srcPath)
+	}
 	imports := util.NewImportNames(fileSrc.Imports)
 	imports.SetLocal(pkgs[0].PkgPath)
 	// The name of a package is not necessarily the last element of its import path
